@@ -317,37 +317,55 @@ theorem oneHot_spec (n i : Nat) : (oneHot n i).length = n ∧ ∀ b ∈ oneHot n
   obtain ⟨j, _, rfl⟩ := hb
   split <;> omega
 
+/-- the statement without any hypothesis on the space -/
+def C02_FullFlatten : Prop :=
+  ∀ (s : Space) (v : Val), contains s v = true → ∃ x, flatten s v = some x ∧ x.length = flatDim s ∧ ∀ b ∈ x, b ≤ 1
+
 mutual
-/-- **a member of the space flattens, without raising, to a 0/1 vector whose length is `flatDim space`** — the length never depends
-on the observation, only on the space (so it equals `flatten_space(space).shape[0]` in every step) -/
-theorem C02_flatten_length : ∀ (s : Space) (v : Val), contains s v = true →
+/-- **a member of a space without empty sub-dictionaries flattens, without raising, to a 0/1 vector whose length is `flatDim space`**
+— the length never depends on the observation, only on the space (so it equals `flatten_space(space).shape[0]` in every step).
+Partial: `flattenable` excludes exactly the spaces gymnasium refuses (finding F-C02-2, open). -/
+theorem C02_flatten_length_partial : ∀ (s : Space) (v : Val), s.flattenable = true → contains s v = true →
     ∃ x, flatten s v = some x ∧ x.length = flatDim s ∧ ∀ b ∈ x, b ≤ 1
-  | .discrete n, .int i, _ => ⟨oneHot n i, by simp [flatten], by simp [flatDim, (oneHot_spec n i).1], (oneHot_spec n i).2⟩
-  | .dict ss, .dict vs, h => by
+  | .discrete n, .int i, _, _ => ⟨oneHot n i, by simp [flatten], by simp [flatDim, (oneHot_spec n i).1], (oneHot_spec n i).2⟩
+  | .dict ss, .dict vs, hf, h => by
     simp only [contains, Bool.and_eq_true] at h
-    obtain ⟨x, hx, hl, hb⟩ := C02_flattenL_length ss vs h.2
-    exact ⟨x, by simp [flatten, hx], by simp [flatDim, hl], hb⟩
-  | .discrete _, .dict _, h => by simp [contains] at h
-  | .discrete _, .raised, h => by simp [contains] at h
-  | .dict _, .int _, h => by simp [contains] at h
-  | .dict _, .raised, h => by simp [contains] at h
-theorem C02_flattenL_length : ∀ (ss : List (Key × Space)) (vs : List (Key × Val)), containsAll ss vs = true →
+    simp only [Space.flattenable, Bool.and_eq_true, Bool.not_eq_true'] at hf
+    obtain ⟨x, hx, hl, hb⟩ := C02_flattenL_length ss vs hf.2 h.2
+    exact ⟨x, by simp [flatten, hf.1, hx], by simp [flatDim, hl], hb⟩
+  | .discrete _, .dict _, _, h => by simp [contains] at h
+  | .discrete _, .raised, _, h => by simp [contains] at h
+  | .dict _, .int _, _, h => by simp [contains] at h
+  | .dict _, .raised, _, h => by simp [contains] at h
+theorem C02_flattenL_length : ∀ (ss : List (Key × Space)) (vs : List (Key × Val)), flattenableL ss = true → containsAll ss vs = true →
     ∃ x, flattenL ss vs = some x ∧ x.length = flatDimL ss ∧ ∀ b ∈ x, b ≤ 1
-  | [], _, _ => ⟨[], by simp [flattenL], by simp [flatDimL], by simp⟩
-  | p :: rest, vs, h => by
+  | [], _, _, _ => ⟨[], by simp [flattenL], by simp [flatDimL], by simp⟩
+  | p :: rest, vs, hf, h => by
     simp only [containsAll, Bool.and_eq_true] at h
+    simp only [flattenableL, Bool.and_eq_true] at hf
     cases hl : lookupK p.1 vs with
     | none => simp [hl] at h
     | some v =>
       simp only [hl] at h
-      obtain ⟨a, ha, hla, hba⟩ := C02_flatten_length p.2 v h.1
-      obtain ⟨b, hb, hlb, hbb⟩ := C02_flattenL_length rest vs h.2
+      obtain ⟨a, ha, hla, hba⟩ := C02_flatten_length_partial p.2 v hf.1 h.1
+      obtain ⟨b, hb, hlb, hbb⟩ := C02_flattenL_length rest vs hf.2 h.2
       refine ⟨a ++ b, by simp [flattenL, hl, ha, hb], by simp [flatDimL, hla, hlb], ?_⟩
       intro y hy
       rcases List.mem_append.mp hy with hy | hy
       · exact hba y hy
       · exact hbb y hy
 end
+
+/-- F-C02-2: an observation space with an empty sub-dictionary (`num_rules: 0`, a monitored protocol without ports, no link references,
+a nodes component without nodes) has members, and gymnasium cannot flatten them -/
+theorem C02_flatten_counterexample : ¬ C02_FullFlatten := by
+  intro h
+  obtain ⟨x, hx, _⟩ := h (.dict [(.s "ACL", .dict [])]) (.dict [(.s "ACL", .dict [])]) (by decide)
+  simp [flatten, flattenL, lookupK] at hx
+
+example : (Space.dict [(.s "a", .discrete 3), (.s "b", .dict [(.n 1, .discrete 2)])]).flattenable = true ∧
+    flatten (.dict [(.s "a", .discrete 3), (.s "b", .dict [(.n 1, .discrete 2)])]) (.dict [(.s "b", .dict [(.n 1, .int 1)]), (.s "a", .int 0)]) =
+      some [1, 0, 0, 0, 1] := by decide
 
 /-! ### the environment: every observation handed out is in the space declared for ITS episode -/
 
@@ -356,39 +374,45 @@ theorem C02_env_space_within_episode (capture : Bool) (e : EpisodeCfg) (o : Obs)
     e.space (o.next capture st) = e.space o := by
   simp [EpisodeCfg.space, C02_space_const]
 
-theorem env_getObs_in_space (capture : Bool) (e : EpisodeCfg) (o : Obs) (st : SimState)
+theorem C02_space_flattenable_const (capture : Bool) (o : Obs) (st : SimState) : (o.next capture st).space.flattenable = o.space.flattenable := by
+  rw [C02_space_const]
+
+theorem env_getObs_in_space (capture : Bool) (e : EpisodeCfg) (o : Obs) (st : SimState) (hfl : e.flat = true → o.space.flattenable = true)
     (h : contains o.space (o.val capture st) = true) : (e.space o).has (e.getObs (o.next capture st) (o.val capture st)) = true := by
   unfold EpisodeCfg.space EpisodeCfg.getObs
   cases hf : e.flat with
   | false => simpa [ApiSpace.has] using h
   | true =>
     rw [C02_space_const]
-    obtain ⟨x, hx, hl, hb⟩ := C02_flatten_length o.space (o.val capture st) h
-    simp only [hx, if_true, ApiSpace.has, Bool.and_eq_true, beq_iff_eq, List.all_eq_true, decide_eq_true_eq]
+    obtain ⟨x, hx, hl, hb⟩ := C02_flatten_length_partial o.space (o.val capture st) (hfl hf) h
+    simp only [hx, hfl hf, if_true, ApiSpace.has, Bool.and_eq_true, beq_iff_eq, List.all_eq_true, decide_eq_true_eq]
     exact ⟨hl, hb⟩
 
 /-- **nested or flattened, every observation of an episode is a member of the space `observation_space` declares during that
-episode** (read after its reset or at any later moment of it) -/
+episode** (read after its reset or at any later moment of it).  Partial in two named hypotheses: `Compat` (F-6: more rules than ACL
+slots) and, for a flattened agent, `flattenable` (F-C02-2: a space gymnasium cannot flatten). -/
 theorem C02_env_obs_in_declared_space (capture : Bool) (e : EpisodeCfg) : ∀ (sts : List SimState) (o : Obs), o.Ok →
+    (e.flat = true → o.space.flattenable = true) →
     (∀ st ∈ sts, WfState capture st ∧ o.Compat st) → ∀ a ∈ e.run capture o sts, (e.space o).has a = true := by
   intro sts
   induction sts with
-  | nil => intro o _ _ a ha; simp [EpisodeCfg.run] at ha
+  | nil => intro o _ _ _ a ha; simp [EpisodeCfg.run] at ha
   | cons st rest ih =>
-    intro o ok h a ha
+    intro o ok hfl h a ha
     have hst := h st (by simp)
     simp only [EpisodeCfg.run, List.mem_cons] at ha
     rcases ha with ha | ha
     · subst ha
-      exact env_getObs_in_space capture e o st (C02_obs_in_space capture st hst.1 o ok hst.2)
-    · have := ih (o.next capture st) (C02_ok_next capture st hst.1 o ok)
+      exact env_getObs_in_space capture e o st hfl (C02_obs_in_space capture st hst.1 o ok hst.2)
+    · have := ih (o.next capture st) (C02_ok_next capture st hst.1 o ok) (by rw [C02_space_flattenable_const]; exact hfl)
         (fun st' hst' => ⟨(h st' (by simp [hst'])).1, compat_next capture st st' o (h st' (by simp [hst'])).2⟩) a ha
       rwa [C02_env_space_within_episode] at this
 
 /-- the same, starting from the episode's scenario section -/
 theorem C02_env_episode_in_declared_space (capture : Bool) (e : EpisodeCfg) (o : Obs) (hw : e.raw.Wf) (hb : e.raw.build e.thr = some o)
+    (hfl : e.flat = true → o.space.flattenable = true)
     (sts : List SimState) (h : ∀ st ∈ sts, WfState capture st ∧ o.Compat st) : ∀ a ∈ e.run capture o sts, (e.space o).has a = true :=
-  C02_env_obs_in_declared_space capture e sts o (C02_raw_build_ok e.thr e.raw o hw hb) h
+  C02_env_obs_in_declared_space capture e sts o (C02_raw_build_ok e.thr e.raw o hw hb) hfl h
 
 /-- **constant scenario ⇒ one space in every episode**: the declared space is determined by the episode's configuration, so a
 schedule that hands out the same configuration every time declares the same space every time (and a schedule that does not may
@@ -418,12 +442,12 @@ def exNodesCfg : NodesCfg :=
 
 example : (RawObs.nodes exNodesCfg).Wf ∧ (∃ o, (RawObs.nodes exNodesCfg).build none = some o ∧
     contains o.space o.default = true ∧ contains o.space (o.val true exState) = true ∧
-    (∃ x, flatten o.space (o.val true exState) = some x ∧ x.length = flatDim o.space)) := by
+    o.space.flattenable = true ∧ (∃ x, flatten o.space (o.val true exState) = some x ∧ x.length = flatDim o.space)) := by
   refine ⟨⟨by unfold TrafficOk; decide, ?_⟩, ?_⟩
   · intro h hh
     simp only [exNodesCfg, List.mem_singleton] at hh
     subst hh
     exact ⟨by unfold TrafficOk; decide, by intro n hn; simp only [List.mem_singleton] at hn; subst hn; unfold TrafficOk; decide⟩
-  · exact ⟨_, rfl, by decide +kernel, by decide +kernel, _, rfl, by decide +kernel⟩
+  · exact ⟨_, rfl, by decide +kernel, by decide +kernel, by decide +kernel, _, rfl, by decide +kernel⟩
 
 end Primaite.Obs
